@@ -24,6 +24,31 @@ CHECKS = {
           "All 8! orders of dropping the two port halves, client and listener on both endpoints (quick: every 7th), strided samples of the 10! orders with a pending connect and a held (or half-accepted) request, two-port orders, at d=0; selected orders and open/transfer/close cycles at d<=1/2. Oracle: both dispatchers return Ok with the link still open, no port number re-used while active, max_ports respected, exactly max_ports numbers free afterwards, no remoc task left, state after k cycles equals the initial state.",
           "Unbounded repetition is argued by state equality after 0..2 cycles, not by infinite runs. Hook H2 makes port numbers re-used immediately.",
           "DESIGN.md 4/C07"),
+  "C06": ("fault_enumeration",
+          "exhaustive fault-plan enumeration (frame index x direction x fault kind x timeout pair) over real endpoints on the harness transport under a paused virtual clock, with deviation-bounded schedule exploration per plan",
+          "Workload: handshake, port open, 3-chunk message, echo, idle gap with pings, small message, a credit-blocked sender on a second port, pending recv/accept/closed. Faults: sink error, stream error, end of stream, stall of both / one direction at every frame index, for 5 connection_timeout pairs; healthy idle periods of 20x the timeout. Oracle in virtual time: each dispatcher fails by fault time + own timeout (or peer termination), every started and later operation completes with an error, received is a prefix of sent, healthy idle connections survive.",
+          "Virtual time only; an endpoint without timeout has no obligation under silent stalls; quick tier d=1 is time-capped (reported).",
+          "DESIGN.md 4/C06"),
+  "C08": ("model_checking",
+          "explicit-state breadth-first search over peer frame histories (alphabet of 73 raw frames incl. malformed ones) from 8 API-state prefixes, each state rebuilt by re-execution on one real endpoint",
+          "All frame sequences of depth <= 2 (quick) / <= 3 (thorough) after each of 8 API states (fresh, connecting, connected reading/idle, half-closed either way, freed, request queued). Oracle: no panic in any task; afterwards the endpoint either passes a conforming liveness exchange in both directions or run() returned Protocol/Reset/StreamClosed (or an orderly Goodbye exchange) and every local handle reports an error; accepted-but-unread payload <= receive buffer + 64.",
+          "Local actors run to quiescence on the default schedule after each frame. Alphabet values are boundary values, not all 2^32.",
+          "DESIGN.md 4/C08"),
+  "C09": ("model_checking",
+          "complete enumeration of a finite grid of scripted conversations between one real endpoint and a peer using only the independent reference codec (spec/chmux_v3.md); byte-exact comparison",
+          "Emit: every message kind in every flag combination with boundary port numbers/ids/credits/cfg values must be byte-identical to the reference encoding; accept: every reference-encoded message incl. id-less v2 variants must have the API effect the spec assigns; negotiation: v2 peer gets no ids; framing: Connect::io over byte pipes with buffer sizes 1..4096 (short reads/writes), chunk sizes 4..=24,32,64,128, full port batches, length prefix, over-long frame refused.",
+          "The spec was transcribed once from the pinned tree and frozen; equality is checked against it, not against remoc's decoder.",
+          "DESIGN.md 4/C09"),
+  "C10": ("model_checking",
+          "deviation-bounded schedule exploration + grid of request kinds x listener action scripts x max_ports x connect_queue on real endpoints; id-based ground truth and label echo pairing oracle; wire-ledger connect_queue invariant",
+          "Request kinds: wait / no-wait / plain / over-port(wait,no-wait) / cancelled; listener actions: accept, inspect+accept, reject(no_ports t/f), drop, cancelled Listener::accept, cancelled Request::accept; pairs and triples over max_ports and connect_queue incl. exhaustion; after teardown every request must be resolved with the classification matching what the listener did; accepted pairs echo their ids both ways; unanswered OpenPort <= advertised connect_queue at every wire prefix; request visible to the listener before data sent after Connect::sent().",
+          "Cfg::ports_exhausted is never read by the implementation (documented finding F7) and is therefore not an enumerated dimension; per-request wait flags are.",
+          "DESIGN.md 4/C10"),
+  "C11": ("model_checking",
+          "deviation-bounded schedule exploration (d<=2/3) of close / receiver drop / sender drop / cancelled close at every position of a 4-message stream with a chunked message on real chmux ports",
+          "Oracle: after close every send that returned Ok is received, later sends fail Closed{gracefully:true}, closed() resolves; after receiver drop later sends fail Closed{gracefully:false} and received is a prefix; after sender drop the receiver gets everything then end-of-stream; nothing hangs.",
+          "Port level; typed channels are exercised through C04/C05 scenarios. select! fairness fixed per seed.",
+          "DESIGN.md 4/C11"),
 }
 
 NOT_YET = "check not built yet in this session (design in DESIGN.md section 4); not claimed"
